@@ -9,8 +9,8 @@ OPS = ("get_byte", "get_bytes", "get_char", "get_short", "get_three", "get_int",
        "get_fixed_string_padded", "get_encoded_string", "get_fixed_encoded_string", "get_fixed_encoded_string_padded",
        "mode_on", "mode_off", "next_chunk", "slice", "slice_default", "remaining", "get_bytes_zero")
 HOPS = ("get_byte", "get_short", "get_bytes", "get_string", "get_fixed_string_padded", "get_encoded_string", "mode_on", "mode_off", "next_chunk", "slice")
-BOUNDS = {"quick": "step: every byte string of length 0..3 x every reachable state x each of 19 operations with arguments 0..n+2; histories (observed and blind): all sequences of length <= 2 over 10 operation kinds, data length 2",
-          "thorough": "step: every byte string of length 0..5; histories (observed and blind): all sequences of length <= 3 over 10 operation kinds, data length 3"}
+BOUNDS = {"quick": "step: every byte string of length 0..3 x every reachable state x each of 19 operations with arguments 0..n+2; histories (observed and blind): all sequences of length <= 2 over 10 operation kinds, data length 2; bytearray / memoryview containers (n=2); long chunks with every byte symbolic: 72, 136, 264, 520 bytes",
+          "thorough": "step: every byte string of length 0..5; histories (observed and blind): all sequences of length <= 3 over 10 operation kinds, data length 3; containers n=1..3; long chunks up to 2,056 bytes"}
 OUTSIDE = "data longer than the bound; negative arguments (excluded by the property, only their ValueError is checked); mutation of a caller-owned buffer behind the memoryview"
 ASSUMPTIONS = ["every reachable reader state is reached by the canonical prefix [chunked on; k x next_chunk; chunked off; get_bytes(j); set mode] (argued in DESIGN.md section 7 C05)"]
 
